@@ -17,6 +17,9 @@ pub fn run_case(c: &Sx) -> Sx {
         "sshift" | "ushift" | "open" | "fv" | "dblaws" => c11(v),
         "step" | "isvalue" | "evalterm" => c02_term(v),
         "pipe" => pipe(v),
+        "tok" => tok(v),
+        "relayout" => relayout(v),
+        "asciiclasses" => ascii_classes(),
         h => panic!("harness: unknown op {h}"),
     }
 }
@@ -210,5 +213,149 @@ fn c11(v: &[Sx]) -> Sx {
             l(r)
         }
         _ => unreachable!(),
+    }
+}
+
+// ------------------------------------------------------------------------------------ tokenizer
+pub fn token_sx(t: &crate::token::Token) -> Sx {
+    use crate::token::{TerminatorType, Variant as V};
+    let k = match &t.variant {
+        V::Asterisk => "KAsterisk",
+        V::Boolean => "KBoolean",
+        V::Colon => "KColon",
+        V::DoubleEquals => "KDoubleEquals",
+        V::Else => "KElse",
+        V::Equals => "KEquals",
+        V::False => "KFalse",
+        V::GreaterThan => "KGreaterThan",
+        V::GreaterThanOrEqualTo => "KGreaterThanOrEqualTo",
+        V::Identifier(_) => "KIdentifier",
+        V::If => "KIf",
+        V::Integer => "KInteger",
+        V::IntegerLiteral(_) => "KIntegerLiteral",
+        V::LeftCurly => "KLeftCurly",
+        V::LeftParen => "KLeftParen",
+        V::LessThan => "KLessThan",
+        V::LessThanOrEqualTo => "KLessThanOrEqualTo",
+        V::Minus => "KMinus",
+        V::Plus => "KPlus",
+        V::RightCurly => "KRightCurly",
+        V::RightParen => "KRightParen",
+        V::Slash => "KSlash",
+        V::Terminator(TerminatorType::LineBreak) => "KLineBreak",
+        V::Terminator(TerminatorType::Semicolon) => "KSemicolon",
+        V::Then => "KThen",
+        V::ThickArrow => "KThickArrow",
+        V::ThinArrow => "KThinArrow",
+        V::True => "KTrue",
+        V::Type => "KType",
+    };
+    let mut r = vec![a(k), n(t.source_range.start), n(t.source_range.end)];
+    match &t.variant {
+        V::Identifier(x) => r.push(a(&hex_encode(x.as_bytes()))),
+        V::IntegerLiteral(z) => r.push(a(&z.to_string())),
+        _ => {}
+    }
+    l(r)
+}
+
+fn chars_sx(src: &str) -> Sx {
+    use unicode_segmentation::GraphemeCursor;
+    let mut r = vec![a("chars")];
+    for (i, c) in src.char_indices() {
+        let mut cur = GraphemeCursor::new(i, src.len(), true);
+        let gend = cur.next_boundary(src, 0).ok().flatten().unwrap_or(src.len());
+        let w = c.len_utf8();
+        if !c.is_ascii() || gend != i + w {
+            r.push(l(vec![
+                n(i),
+                n(c as usize),
+                n(w),
+                b(c.is_alphabetic()),
+                b(c.is_alphanumeric()),
+                b(c.is_whitespace()),
+                n(gend),
+            ]));
+        }
+    }
+    l(r)
+}
+
+fn tok(v: &[Sx]) -> Sx {
+    let bytes = hex_decode(v[1].atom());
+    let src = match String::from_utf8(bytes) {
+        Ok(s) => s,
+        Err(_) => return l(vec![a("notutf8")]),
+    };
+    match tokenize(None, &src) {
+        Ok(ts) => {
+            let mut r = vec![a("toks")];
+            r.extend(ts.iter().map(token_sx));
+            l(vec![a("ok"), l(r), chars_sx(&src)])
+        }
+        Err(es) => {
+            let mut r = vec![a("syms")];
+            for e in &es {
+                // "... Unexpected symbol `X`."  (colours are off, so code_str uses backticks)
+                let first = e.message.split('\n').next().unwrap_or("");
+                let st = first.find('`').map(|p| p + 1).unwrap_or(0);
+                let en = first.rfind('`').unwrap_or(st);
+                r.push(a(&hex_encode(first[st..en.max(st)].as_bytes())));
+            }
+            l(vec![a("err"), l(r), chars_sx(&src)])
+        }
+    }
+}
+
+fn ascii_classes() -> Sx {
+    let mut r = vec![a("classes")];
+    for c in 0u8..128 {
+        let ch = c as char;
+        r.push(l(vec![n(c as usize), b(ch.is_alphabetic()), b(ch.is_alphanumeric()), b(ch.is_whitespace())]));
+    }
+    l(r)
+}
+
+// (relayout x:<src A> x:<src B>): token kinds (terminator type ignored) and payloads, and the parser's
+// output modulo source ranges, of two layouts of the same program.
+fn relayout(v: &[Sx]) -> Sx {
+    let sa = String::from_utf8(hex_decode(v[1].atom())).expect("utf8");
+    let sb = String::from_utf8(hex_decode(v[2].atom())).expect("utf8");
+    let kinds = |ts: &[crate::token::Token]| -> Vec<String> {
+        ts.iter()
+            .map(|t| {
+                let s = token_sx(t);
+                let lst = s.list();
+                let k = lst[0].atom();
+                let k = if k == "KLineBreak" || k == "KSemicolon" { "KTerminator" } else { k };
+                if lst.len() > 3 { format!("{k}:{}", lst[3].atom()) } else { k.to_owned() }
+            })
+            .collect()
+    };
+    let ta = tokenize(None, &sa);
+    let tb = tokenize(None, &sb);
+    match (&ta, &tb) {
+        (Ok(xa), Ok(xb)) => {
+            let ka = kinds(xa);
+            let kb = kinds(xb);
+            if ka != kb {
+                return l(vec![a("diff"), a("tokens"), a(&hex_encode(ka.join(" ").as_bytes())), a(&hex_encode(kb.join(" ").as_bytes()))]);
+            }
+            let pa = parse(None, &sa, &xa[..], &[]);
+            let pb = parse(None, &sb, &xb[..], &[]);
+            match (&pa, &pb) {
+                (Ok(x), Ok(y)) => {
+                    let ea = Exporter::default().term(x, false);
+                    let eb = Exporter::default().term(y, false);
+                    if ea == eb { l(vec![a("same"), a("parsed"), n(xa.len())]) } else { l(vec![a("diff"), a("parse"), ea, eb]) }
+                }
+                (Err(x), Err(y)) => {
+                    if x.len() == y.len() { l(vec![a("same"), a("rejected"), n(xa.len())]) } else { l(vec![a("diff"), a("errorcount"), n(x.len()), n(y.len())]) }
+                }
+                _ => l(vec![a("diff"), a("verdict"), b(pa.is_ok()), b(pb.is_ok())]),
+            }
+        }
+        (Err(_), Err(_)) => l(vec![a("same"), a("lexerr"), n(0)]),
+        _ => l(vec![a("diff"), a("lexverdict"), b(ta.is_ok()), b(tb.is_ok())]),
     }
 }
